@@ -46,6 +46,8 @@ type ListFault struct {
 	// EmptyRV: the returned list carries no resourceVersion (as client-go's fake
 	// clientset does); a Watch without resourceVersion then starts "now".
 	EmptyRV bool
+	// Err: the error a ListErr fault returns (default ErrInjected).
+	Err error
 }
 
 // WatchFault describes the behaviour of one Watch() call / stream.
@@ -336,6 +338,9 @@ func (s *Server) List(ctx context.Context, opts metav1.ListOptions) (runtime.Obj
 
 	switch f.Kind {
 	case ListErr:
+		if f.Err != nil {
+			return finish(nil, f.Err)
+		}
 		return finish(nil, ErrInjected)
 	case ListNonList:
 		return finish(&corev1.Pod{}, nil)
